@@ -118,11 +118,25 @@ func (w *PerConfigReconciler) SyncOne(ctx context.Context, namespace, name strin
 	// Start all Jobs that we can start in order of oldest to newest. Note that we
 	// cannot continue on error, we have to retry the whole routine in order to
 	// avoid violating the start order.
+	enqueueWaiting := false
 	for _, rj := range rjs {
 		ok, err := w.canStartJob(ctx, rjc, rj, activeCount)
 		if err != nil {
 			return errors.Wrapf(err, "cannot check if job can start")
 		}
+
+		// Once an Enqueue job that is already due has to wait for capacity, no newer
+		// Enqueue job may overtake it in this pass, even if capacity is freed
+		// concurrently and picked up when activeCount is refreshed below.
+		if isEnqueueJob(rj) {
+			if ok && enqueueWaiting {
+				continue
+			}
+			if !ok && !ktime.IsTimeSetAndLater(rj.Spec.StartPolicy.StartAfter) {
+				enqueueWaiting = true
+			}
+		}
+
 		if !ok {
 			continue
 		}
@@ -135,6 +149,12 @@ func (w *PerConfigReconciler) SyncOne(ctx context.Context, namespace, name strin
 	}
 
 	return nil
+}
+
+// isEnqueueJob returns true if the Job waits for capacity according to its start policy.
+func isEnqueueJob(rj *execution.Job) bool {
+	spec := rj.Spec.StartPolicy
+	return spec != nil && spec.ConcurrencyPolicy == execution.ConcurrencyPolicyEnqueue
 }
 
 func (w *PerConfigReconciler) listQueuedJobsForJobConfig(
